@@ -35,9 +35,20 @@ TEXTS = {
         "technique": 'Lean 4 proof (handler-level, all fault plans) + co-simulation with a per-action unfinished-run counter',
     },
     'C12': {
-        "text": "Kernel-checked: ListValid spec (status, not completed, expiry <= queried instant); the poller reaches a timeout function only for the timer's OWN run (lookup by run ID, since fix F10), still at the status, neither finished nor stopped; moved-on runs get exactly that timer cancelled; timers created only for non-zero times; completed never listed again; cancel/complete touch one ID. Bundled timeout stores: see notes (store suites). Engine model = lean/WorkflowModel/Model/Engine.lean (executable, adapter-call granularity, fault plans, user-function outcomes as parameters), tied to the code by co-simulation under the gated deterministic simulator: every observation line of every explored history must be identical; guards/tables are regenerated from source (T1), call orders are tripwires (T2). ",
-        "note": TB,
-        "technique": 'Lean 4 proof (gate functions + store spec) + co-simulation with clock positions around expiry',
+        "text": "Kernel-checked: the poller reaches a timeout function only for the timer's OWN run (lookup by run ID, since fix F10), still at the status, neither finished nor stopped; moved-on runs get exactly that timer cancelled; timers created only for non-zero times; "
+                "a successful timeout completes its timer, a failing one leaves it for later polls. Store clauses proved on the contract RefTimeouts: due iff workflow/status match, not completed, not cancelled, expired before the instant (either answer AT the instant); "
+                "Complete/Cancel of one ID - or an unknown ID - leaves every other timer untouched; completed/cancelled never due again; IDs unique in every reachable store. Ties: regenerated due-test of memtimeoutstore (T2), differential suite "
+                "mem-timeoutstore (all answers vs the compiled reference incl. unknown/zero IDs, empty store, instants before/at/after expiry; corpus of repaired defect F9 first), engine co-simulation with clock positions around expiry.",
+        "note": TB + "sqltimeout is covered under C18.",
+        "technique": 'Lean 4 proof (gate functions over the engine model + laws of the store contract) + co-simulation and differential run of memtimeoutstore against the compiled reference',
+    },
+    'C19': {
+        "text": "Kernel-checked laws of the stream contract RefStream for every state: a delivery is the FIRST event of the receiver's topic at or after its start (order, nothing skipped); it does not block while such an event exists; an unacknowledged delivery is "
+                "delivered again (also to a reconnecting receiver); after ack(i) every later delivery - with or without StreamFromLatest - is beyond i; acks/receives under one name change neither position, floor nor log of another; a StreamFromLatest receiver with no "
+                "stored position starts at the log length AT CREATION (also 0) whatever is sent afterwards, and the option is ignored once a position is stored. Tie: decisions of memstreamer's Recv loop regenerated from source (T2); differential suites: every sequence "
+                "over a 6-letter alphabet up to depth 6 (quick) / 8 (thorough) plus random sequences over 4 names, 3 topics; the connector against the same contract; corpus of repaired defect F8 first.",
+        "note": TB + "memstreamer's Go loop is not modelled in Lean: refinement is established by exhaustive-short + random differential runs against the reference.",
+        "technique": "Lean 4 proof of the reference stream's laws + exhaustive short-sequence and random differential co-simulation of memstreamer/connector against the compiled reference",
     },
     'C13': {
         "text": 'Kernel-checked over regenerated tests: n=0 never pauses nor counts; below threshold counts exactly that (error,process,run) key, other keys untouched; at the n-th occurrence one Paused write (version+1) and the count restarts at 0; retry consumer writes nothing unless still Paused and the full interval has elapsed since updatedAt; Cancelled cannot be resumed. Engine model = lean/WorkflowModel/Model/Engine.lean (executable, adapter-call granularity, fault plans, user-function outcomes as parameters), tied to the code by co-simulation under the gated deterministic simulator: every observation line of every explored history must be identical; guards/tables are regenerated from source (T1), call orders are tripwires (T2). ',
@@ -91,7 +102,7 @@ TEXTS = {
 }
 
 NOT_APPLICABLE = {p: "check under construction in this session; will be claimed once its theorems and tie exist" for p in
-                  ["C01", "C11", "C18", "C19", "C20"]}
+                  ["C01", "C11", "C18", "C20"]}
 
 NOTES = ("One engine: Lean 4 model + theorems, regenerated facts (T1/T2), co-simulation (T3). ./check <id> quick|thorough; ./check replay <path>. "
          "known-findings.json lists genuine defects that are recorded rather than repaired.")
